@@ -13,7 +13,19 @@
                     ext_crypto_ecdsa_verify_version_2 (64 signature bytes, low-S ECDSA verify),
                     prop_ok against Substrate's verdict (recover from the 65 bytes and compare);
                     disagreements inside [host_ecdsa_guard] are the known finding
-                    ecdsa-verify-drops-recovery-id; hrec/hrecc: the key inside Result::Ok.
+                    ecdsa-verify-drops-recovery-id;
+                    hrec/hrecc: the key inside Result::Ok of version 1 and of version 2, and whether
+                    the call rewrote the signature in guest memory (model_eq only); prop_ok against
+                    Substrate's version 2 (strict) and version 1 (r, s reduced modulo n): a
+                    disagreement of version 1 with r or s >= n is the known finding
+                    ecdsa-recover-v1-strict.
+   sr cases         sr / srdep / hsr1 / hsr2: the model is the repaired gossamer code
+                    (fixes/C29-sr25519-*.patch), whose accepting verdict equals Substrate's
+                    verify / verify_deprecated for every input (theorem C29_sr25519_agrees), so
+                    the reference verdict is read off the model's: prop_ok = "accepted iff the
+                    reference accepts", model_eq = same verdict class (ok / fail / err).
+   A finding slug is attached only to a failing case on which the implementation behaves as the
+   model of the known-defective code predicts (model_eq): any other failure is a violation.
 
    The signature references cost about a second per case (256-bit arithmetic on Coq's binary
    integers), so the cases are distributed over worker processes (this executable re-invoked
@@ -66,7 +78,7 @@ let check inp obs =
     let model = (match g with VOk -> "ok" | VFail -> "fail" | VErr -> "err") in
     let accepted = (obs = "ok") in
     let prop = (accepted = z) in
-    let finding = if (not prop) && zip215_guard pk sg then "ed25519-not-zip215" else "-" in
+    let finding = if (not prop) && model = obs && zip215_guard pk sg then "ed25519-not-zip215" else "-" in
     let shape = if hexlen pkh <> 32 || hexlen sigh <> 64 then "ed-bad-length" else "ed-length-ok" in
     { prop_ok = prop; model_eq = (model = obs); nontrivial = true; finding;
       tags = "ed," ^ shape ^ ",ed-go-" ^ model ^ (if z then ",ed-zip215-accept" else ",ed-zip215-reject")
@@ -99,7 +111,7 @@ let check inp obs =
     let (g, z) = host_ed25519_case pk msg sg in
     let model = if g then "1" else "0" in
     let prop = ((obs = "1") = z) in
-    let finding = if (not prop) && zip215_guard pk sg then "ed25519-not-zip215" else "-" in
+    let finding = if (not prop) && model = obs && zip215_guard pk sg then "ed25519-not-zip215" else "-" in
     { prop_ok = prop; model_eq = (model = obs); nontrivial = true; finding;
       tags = "host,hed-" ^ model ^ (if z then ",hed-zip215-accept" else ",hed-zip215-reject");
       detail = if prop && model = obs then "" else
@@ -110,18 +122,57 @@ let check inp obs =
     let z = substrate_ecdsa_verify pk msg sg in
     let model = if g then "1" else "0" in
     let prop = ((obs = "1") = z) in
-    let finding = if (not prop) && host_ecdsa_guard pk msg sg then "ecdsa-verify-drops-recovery-id" else "-" in
+    let finding = if (not prop) && model = obs && host_ecdsa_guard pk msg sg then "ecdsa-verify-drops-recovery-id" else "-" in
     { prop_ok = prop; model_eq = (model = obs); nontrivial = true; finding;
       tags = "host,hecdsa-" ^ model ^ (if z then ",hecdsa-substrate-accept" else ",hecdsa-substrate-reject")
              ^ (if g <> z then ",hecdsa-differs-from-substrate" else "");
       detail = if prop && model = obs then "" else
           Printf.sprintf "host=%s model-of-go=%s substrate=%s" obs model (if z then "accept" else "reject") }
-  | ["hrec"; msgh; sigh] ->
-    let m = (match host_recover (bytes_of_hex msgh) (bytes_of_hex sigh) with Some k -> hex_of_bytes k | None -> "err") in
-    simple ~tags:("host,hrec-" ^ (if m = "err" then "err" else "key")) ~model:m ~obs
-  | ["hrecc"; msgh; sigh] ->
-    let m = (match host_recover_compressed (bytes_of_hex msgh) (bytes_of_hex sigh) with Some k -> hex_of_bytes k | None -> "err") in
-    simple ~tags:("host,hrecc-" ^ (if m = "err" then "err" else "key")) ~model:m ~obs
+  | [("hrec" | "hrecc") as kind; msgh; sigh] ->
+    let msg = bytes_of_hex msgh and sg = bytes_of_hex sigh in
+    let compressed = (kind = "hrecc") in
+    let key q = hex_of_bytes (if compressed then serialize_compressed q else key_xy q) in
+    let str = function Some q -> key q | None -> "err" in
+    let m = str (substrate_recover_v2 msg sg) in          (* = gossamer's model, both versions *)
+    let guard = host_recover_v1_guard sg in
+    let ref1 = if guard then str (substrate_recover_v1 msg sg) else m in
+    let mut_m = host_recover_mutates sg in
+    let model = m ^ " " ^ m ^ (if mut_m then " mut" else "") in
+    (match split_ws obs with
+     | o1 :: o2 :: rest ->
+       let prop = (o1 = ref1) && (o2 = m) in
+       let eq = (obs = model) in
+       { prop_ok = prop; model_eq = eq; nontrivial = true;
+         finding = if (not prop) && eq && guard && o2 = m then "ecdsa-recover-v1-strict" else "-";
+         tags = "host," ^ kind ^ "-" ^ (if m = "err" then "err" else "key")
+                ^ (if guard then ",hrec-rs-overflow,hrec-v1-ref-" ^ (if ref1 = "err" then "err" else "key") else "")
+                ^ (if rest = ["mut"] then ",hrec-rewrites-guest-memory" else "");
+         detail = if prop && eq then "" else
+             Printf.sprintf "host=%s model-of-go=%s substrate-v1=%s substrate-v2=%s" obs model ref1 m }
+     | _ -> { prop_ok = false; model_eq = false; nontrivial = false; finding = "-"; tags = "host," ^ kind ^ "-shape";
+              detail = "unexpected observation: " ^ obs })
+  | [("sr" | "srdep") as kind; pkh; msgh; sigh] ->
+    let pk = bytes_of_hex pkh and msg = bytes_of_hex msgh and sg = bytes_of_hex sigh in
+    let g = if kind = "sr" then sr25519_verify_signature pk sg msg else sr25519_verify_deprecated pk sg msg in
+    let model = (match g with VOk -> "ok" | VFail -> "fail" | VErr -> "err") in
+    let z = accepts g in
+    let prop = ((obs = "ok") = z) in
+    let marked = hexlen sigh = 64 && sr_marked sg in
+    { prop_ok = prop; model_eq = (model = obs); nontrivial = true; finding = "-";
+      tags = "sr," ^ kind ^ "-" ^ model ^ (if marked then "," ^ kind ^ "-marked" else "," ^ kind ^ "-unmarked")
+             ^ (if hexlen pkh <> 32 || hexlen sigh <> 64 then ",sr-bad-length" else "")
+             ^ (if pkh = String.make 64 '0' then ",sr-identity-key" else "");
+      detail = if prop && model = obs then "" else
+          Printf.sprintf "gossamer=%s repaired-model=%s substrate=%s" obs model (if z then "accept" else "reject") }
+  | [("hsr1" | "hsr2") as kind; pkh; msgh; sigh] ->
+    let pk = bytes_of_hex pkh and msg = bytes_of_hex msgh and sg = bytes_of_hex sigh in
+    let z = if kind = "hsr1" then host_sr25519_verify_v1 pk msg sg else host_sr25519_verify_v2 pk msg sg in
+    let model = if z then "1" else "0" in
+    let e = (model = obs) in
+    { prop_ok = e; model_eq = e; nontrivial = true; finding = "-";
+      tags = "host," ^ kind ^ "-" ^ model ^ (if sr_marked sg then "," ^ kind ^ "-marked" else "," ^ kind ^ "-unmarked")
+             ^ (if pkh = String.make 64 '0' then "," ^ kind ^ "-identity-key" else "");
+      detail = if e then "" else Printf.sprintf "host=%s substrate=%s" obs model }
   | _ -> fail "C29: bad input %s" inp
 
 (* ---- parallel front end *)
